@@ -456,8 +456,14 @@ def struct_pack(interp, fmt, *vals):
         if not interp.truth(band(v >= 0, v < 256 ** w)):
             raise struct.error("argument out of range")
         t = num_term(v)
-        for k in range(w - 1, -1, -1):
-            parts.append(z3.Unit((t / (256 ** k)) % 256))
+        # digits as fresh byte variables tied to the value by one linear equation (the base-256
+        # representation is unique, so this is exact and keeps div/mod out of the sequence terms)
+        digits = [z3.Int(ctx().fresh_name("pk")) for _ in range(w)]
+        for d in digits:
+            ctx().assume(z3.And(d >= 0, d <= 255))
+        ctx().assume(t == sum(d * (256 ** (w - 1 - k)) for k, d in enumerate(digits)))
+        for d in digits:
+            parts.append(z3.Unit(d))
     term = parts[0] if len(parts) == 1 else z3.Concat(*parts)
     return core._seq_value(term, "bytes")
 
@@ -691,6 +697,9 @@ def percent_format(interp, fmt, arg):
             else:
                 axiom("%x / %d formatting of non-negative ints: minimal lower-case digits")
                 if not interp.truth(v >= 0):
+                    if kind == "str":
+                        # text built for messages: its content is outside the model (comparing it is refused)
+                        return MessageStr("<?>")
                     raise Unsupported("%%%s of a possibly negative symbolic int" % c)
                 out.append(SSeq((hexenc() if c == "x" else decenc())(v.term), kind, True))
         elif c in "sb" and kind == "bytes" and kind_of(v) == "bytes":
